@@ -59,7 +59,7 @@ def run(ctx):
     if ok:
         _, dbb, dt = dcallers[0]
         pc = path_count(ins, [dbb])
-        user = [bb for bb in range(len(ins.blocks)) if (uc.direct(ins, bb) or ("", ""))[0].startswith("U1")]
+        user = [bb for bb in range(len(ins.blocks)) if (uc.direct(ins, bb) or ("", ""))[0] in ("P",) or (uc.direct(ins, bb) or ("", ""))[0].startswith("U1")]
         dom = ins.dominators(unwind=False)
         after_init = bool(user) and all(u in dom[dbb] for u in user)
         ctx.ob("R1.dropper-pairing", "once-after-initialiser", pc == (1, 1) and after_init, ins.loc(dt["span"]),
@@ -190,7 +190,7 @@ def run(ctx):
             ok = ok and good
             det += f"; value = {op}(count, 1): {good}"
         if name == "insert_with_unchecked":
-            user = [bb for bb in range(len(b.blocks)) if (uc.direct(b, bb) or ("", ""))[0].startswith("U1")]
+            user = [bb for bb in range(len(b.blocks)) if (uc.direct(b, bb) or ("", ""))[0] in ("P",) or (uc.direct(b, bb) or ("", ""))[0].startswith("U1")]
             dom = b.dominators(unwind=False)
             after = bool(user) and all(all(u in dom[bb] for u in user) for bb in bbs)
             # no persistent write (Slab field or slot memory) before the initialiser
